@@ -490,3 +490,8 @@ B('C14.asdict-decodes-bytes', ['C14'], [(P + 'ssh/key.py', "    def host_key_asd
   mention=['C14.R17'])
 # a parsable class with a plain initialiser and private state only needs a rendering of its own
 B('C14.language-tag-without-rendering', ['C14'], [(P + 'common/classes.py', "    def _asdict(self):\n", "    def _as_text(self):\n")], mention=['C14.R18'])
+# a composer that clamps an attribute at a constant (legacy version numbers): the parser stores what it reads
+B('C06.record-version-clamped', ['C06', 'C01'], [(P + 'tls/record.py', "        composer.compose_parsable(self.protocol_version)\n",
+  "        composer.compose_parsable(min(self.protocol_version, TlsProtocolVersion(TlsVersion.TLS1_2)))\n")], mention=['C06.R10', 'protocol_version'])
+# a local-time function handed on as a converter; astimezone of a value that may have no zone
+B('C11.fromtimestamp-as-converter', ['C11', 'C05'], [(P + 'tls/subprotocol.py', "datetime.datetime.utcfromtimestamp)", "datetime.datetime.fromtimestamp)")], mention=['fromtimestamp'])
